@@ -15,7 +15,7 @@ CLAIMED = {
             '(all cuts, all chunkings, both framing versions, all byte streams), equal the RFC 4742/6242 reading of the stream, nothing is '
             'delivered early and nothing after a terminator is lost. The model is compared with the real parser on generated and '
             'exhaustive-cut streams each run, and the property predicate is evaluated on the real parser with an independent RFC decoder.',
-            NOTE + 'The three _transport_read bodies are checked textually to be recv(BUF_SIZE); the theorems hold for every cut so the read size is immaterial.',
+            NOTE + 'The theorems hold for every cut, so the transports\' read size is immaterial; the three _transport_read bodies are only recorded in the evidence.',
             'DESIGN.md 5/C01'),
     'C02': (T + ': invariants over all operation histories of the session model; short-write induction',
             'Proof that in the session model the wire is always a prefix of the concatenation of the frames of the dequeued messages in put '
@@ -36,8 +36,11 @@ CLAIMED = {
     'C05': (T + ': interleaving invariants + finite profile table regenerated from the source',
             'Proof that the first frame is the client hello in end-of-message framing for every ordering of server hello vs. client write, '
             'that later frames are chunked iff both sides advertised base:1.1, that id/capabilities come from a received hello, that connect '
-            'cannot hang; decide-checked table: all 14 profiles always advertise a base URI, default = documented list ++ extras.',
-            NOTE + 'HelloHandler.build/parse (lxml) enter as environment; the hello on the wire is parsed with xml.etree in the oracle.', 'DESIGN.md 5/C05'),
+            'cannot hang; decide-checked table: all 14 profiles always advertise a base URI, default = documented list ++ extras; and, over the '
+            'model of the XML serialiser / reader (Model/XmlDoc), that a peer reading the <hello> ncclient builds gets exactly the capability '
+            'list, in order, unaltered, for every list and both namespace spellings. HelloHandler.build is compared with the model byte for byte; '
+            'a real SSH server that never sends / drips its hello checks that connect fails within the timeout.',
+            NOTE + 'lxml serialisation is modelled (compared every run), HelloHandler.parse enters as environment; the hello on the wire is parsed with xml.etree in the oracle.', 'DESIGN.md 5/C05'),
     'C06': (T + ': decision logic stated outright',
             'Proof that ok iff no rpc-error, the error list mirrors the rpc-errors, an RPCError is raised iff (ALL and some non-exempt error) or '
             '(ERRORS and some non-exempt error of severity error), never under NONE, that the exemption test is exactly the documented '
@@ -48,11 +51,16 @@ CLAIMED = {
             'PARTIAL. Proved: over the operation table regenerated from the source by probing execution (every standard and vendor operation x '
             'argument shape x profile envelope) every sent request is one <rpc> in the base namespace with message-id and exactly the operation '
             'element the protocol defines, RFC 6241 parameter order, out-of-set enumerated arguments rejected with nothing sent, each caller '
-            'string exactly once in a text/attribute position; for ALL strings: escape/parse round trip of text and attribute values and no '
-            'markup in escaped data. Modelled, not verified: lxml serialisation (compared byte for byte with the library each run).',
-            NOTE + 'parametricity of request builders in their string arguments is sampled (23 templates x nasty strings per run), not proved.', 'DESIGN.md 5/C07'),
+            'string exactly once in a text/attribute position, every enumerated element on the wire carries a member of its enumeration; for ALL '
+            'strings: escape/parse round trip of text and attribute values and no markup in escaped data; for ALL well-formed element trees: '
+            'reading the serialisation gives back exactly the tree (no caller string can add, remove or re-parent an element), incl. the <rpc> '
+            'envelope and its message-id. Modelled, not verified: lxml serialisation and an XML reader (compared byte for byte / tree for tree '
+            'with lxml and expat each run).',
+            NOTE + 'parametricity of request builders in their string arguments is sampled (26 templates x nasty strings per run, each call issued twice), not proved.', 'DESIGN.md 5/C07'),
     'C09': (T + ': finite gating table (decide +kernel) + gate semantics for all capability lists',
-            'Proved: over the regenerated operation table the capabilities each call asserts are exactly the documented dependencies, every '
+            'Proved: over the regenerated operation table the capabilities each call asserts are exactly the documented dependencies, a '
+            'capability-dependent element or value (confirmed, persist, test-option, test-only, rollback-on-error, with-defaults) is on the wire '
+            'only if its capability was asserted - whatever spelling of the argument produced it - every '
             'documented dependency was probed with the capability removed and was refused (MissingCapabilityError / WithDefaultsError) with '
             'nothing sent; for ALL capability lists: the gate refuses iff a required capability is not contained (C08 gives what contained '
             'means, both URN forms) and the with-defaults mode check accepts iff the mode is the basic or an also-supported mode.',
@@ -80,9 +88,11 @@ CLAIMED = {
     'C17': (T + ': tree induction for replace_namespace, validation and declaration logic; escaping lemmas',
             'PARTIAL. Proved: replace_namespace renames exactly the elements and attributes of the old namespace and nothing else (all trees), '
             'root validation accepts exactly the allowed tag / required attribute combinations, one XML declaration, character-data round '
-            'trip for all strings. Modelled: lxml parse / serialise; the tree-level round trip, agreement with xml.etree and parse_root vs '
-            'full parse are established by the correspondence on generated documents and constructor programs.',
-            NOTE + 'lxml and expat are the environment.', 'DESIGN.md 5/C17'),
+            'trip for all strings, and the tree-level round trip parse(serialise t) = t for every well-formed namespace-free tree over a MODEL of '
+            'the serialiser and reader (compared with to_xml byte for byte and with expat each run). Environment: prefixes, comments, PIs, CDATA, '
+            'DTDs, parse_root vs full parse - established by the correspondence on generated documents, a raw-document corpus and constructor programs '
+            '(round trip, in-scope namespace bindings, tree left untouched, independent parser).',
+            NOTE + 'lxml and expat are modelled for namespace-free trees and environment otherwise.', 'DESIGN.md 5/C17'),
     'C18': (T + ': event induction over reply trees for the SAX handler',
             'PARTIAL. Proved over the model of the Junos SAX content handler: for every filter and every reply whose tag names do not repeat '
             'along a path (premise Good, with a decide-checked counterexample showing it is needed) the handler writes exactly the projection '
@@ -114,7 +124,7 @@ CLAIMED = {
             'requests, invokes no listener, and in-flight requests are failed. PARTIAL: what epoll/paramiko do with a closed descriptor is an '
             'explicit environment assumption, validated by lock-step runs of the three real close() methods and by real Unix/TLS sockets '
             '(thread liveness, EOF at the peer, fd/thread counts over open/close cycles).',
-            NOTE + 'OS/epoll/paramiko behaviour is modelled (workerOpClosed), not verified; no SSH server in the quick tier.', 'DESIGN.md 5/C12'),
+            NOTE + 'OS/epoll/paramiko behaviour is modelled (workerOpClosed), not verified; the waits of SSHSession.close run in virtual time in the lock-step runs.', 'DESIGN.md 5/C12'),
     'C14': (T + ': soundness of delivery for arbitrary byte streams, no-stall, stop invariant',
             'Proof that for ANY byte stream and segmentation the delivered messages are the payloads of correctly framed messages forming a '
             'prefix of the stream, followed by at most one error; that a non-raised parser is never wedged; that bad headers raise at once; '
